@@ -92,9 +92,16 @@ class SFTPFile(BufferedFile):
         if self._closed:
             return
         self.sftp._log(DEBUG, "close({})".format(u(hexlify(self.handle))))
-        if self.pipelined:
-            self.sftp._finish_responses(self)
         BufferedFile.close(self)
+        pending_error = None
+        if (self.pipelined or len(self._reqs) > 0) and not async_:
+            # collect the status of every outstanding write: a write the
+            # server rejected must not go unnoticed
+            try:
+                self.sftp._finish_responses(self)
+                self._check_exception()
+            except Exception as e:
+                pending_error = e
         try:
             if async_:
                 # GC'd file handle could be called from an arbitrary thread
@@ -108,6 +115,8 @@ class SFTPFile(BufferedFile):
         except (IOError, socket.error):
             # may have outlived the Transport connection
             pass
+        if pending_error is not None:
+            raise pending_error
 
     def _data_in_prefetch_requests(self, offset, size):
         k = [
@@ -192,23 +201,22 @@ class SFTPFile(BufferedFile):
     def _write(self, data):
         # may write less than requested if it would exceed max packet size
         chunk = min(len(data), self.MAX_REQUEST_SIZE)
-        sftp_async_request = self.sftp._async_request(
-            type(None),
-            CMD_WRITE,
-            self.handle,
-            int64(self._realpos),
-            data[:chunk],
+        if not self.pipelined:
+            t, msg = self.sftp._request(
+                CMD_WRITE, self.handle, int64(self._realpos), data[:chunk]
+            )
+            if t != CMD_STATUS:
+                raise SFTPError("Expected status")
+            # convert_status already called
+            return chunk
+        # pipelined: the request is registered under this file, so its status
+        # reaches _async_response no matter which call reads it off the wire
+        num = self.sftp._async_request(
+            self, CMD_WRITE, self.handle, int64(self._realpos), data[:chunk]
         )
-        self._reqs.append(sftp_async_request)
-        if not self.pipelined or (
-            len(self._reqs) > 100 and self.sftp.sock.recv_ready()
-        ):
-            while len(self._reqs):
-                req = self._reqs.popleft()
-                t, msg = self.sftp._read_response(req)
-                if t != CMD_STATUS:
-                    raise SFTPError("Expected status")
-                # convert_status already called
+        self._reqs.append(num)
+        if len(self._reqs) > 100 and self.sftp.sock.recv_ready():
+            self.sftp._finish_responses(self)
         return chunk
 
     def settimeout(self, timeout):
@@ -433,7 +441,13 @@ class SFTPFile(BufferedFile):
 
         .. versionadded:: 1.5
         """
+        was_pipelined = self.pipelined
         self.pipelined = pipelined
+        if was_pipelined and not pipelined:
+            # leaving pipelined mode: collect what is still outstanding, so
+            # that a rejected write is reported now rather than never
+            self.sftp._finish_responses(self)
+            self._check_exception()
 
     def prefetch(self, file_size=None, max_concurrent_requests=None):
         """
@@ -568,6 +582,18 @@ class SFTPFile(BufferedFile):
                 self._prefetch_extents[num] = (offset, length)
 
     def _async_response(self, t, msg, num):
+        if num in self._reqs:
+            # answer to a pipelined write: any failure is saved and raised by
+            # the next drain (at the latest by close())
+            self._reqs.remove(num)
+            if t != CMD_STATUS:
+                self._saved_exception = SFTPError("Expected status")
+                return
+            try:
+                self.sftp._convert_status(msg)
+            except Exception as e:
+                self._saved_exception = e
+            return
         if t == CMD_STATUS:
             # save exception and re-raise it on next file operation.  EOF is
             # not an error: a reader that gets that far finds out by itself.
